@@ -155,27 +155,106 @@ func (kf *kindFlow) refine(cond ssa.Value, cur KindSet) (t, f KindSet) {
 // KindFlow computes the possible kinds of the subject at the entry of every block.
 func KindFlow(fn *ssa.Function, subject func(ssa.Value) bool, kills func(ssa.Instruction) bool) *kindFlow {
 	kf := &kindFlow{fn: fn, subject: subject, kills: kills, in: map[*ssa.BasicBlock]KindSet{}, reached: map[*ssa.BasicBlock]bool{}}
+	kf.solve()
+	return kf
+}
+
+// atom refines one non-phi condition.
+func (kf *kindFlow) atom(cond ssa.Value, cur KindSet) (KindSet, KindSet) {
+	if kf.full != nil {
+		return kf.full(cond, cur)
+	}
+	return kf.refine(cond, cur)
+}
+
+// endOf: kinds at the end of block b.
+func (kf *kindFlow) endOf(b *ssa.BasicBlock) KindSet {
+	if !kf.reached[b] {
+		return 0
+	}
+	cur := kf.in[b]
+	for _, i := range b.Instrs {
+		if kf.kills != nil && kf.kills(i) {
+			cur = AllKinds
+		}
+	}
+	return cur
+}
+
+// edge: kinds on the edge from pred to its successor number si.
+func (kf *kindFlow) edge(pred *ssa.BasicBlock, si int, depth int) KindSet {
+	cur := kf.endOf(pred)
+	if ifi, ok := pred.Instrs[len(pred.Instrs)-1].(*ssa.If); ok && len(pred.Succs) == 2 && pred.Succs[0] != pred.Succs[1] {
+		t, f := kf.cond(ifi.Cond, pred, cur, depth)
+		if si == 0 {
+			return t
+		}
+		return f
+	}
+	return cur
+}
+
+// cond refines by a condition evaluated at the end of block at; boolean phis
+// (from &&, || or a test stored in a local) are resolved edge by edge.
+func (kf *kindFlow) cond(c ssa.Value, at *ssa.BasicBlock, cur KindSet, depth int) (KindSet, KindSet) {
+	if u, ok := c.(*ssa.UnOp); ok && u.Op == token.NOT {
+		t, f := kf.cond(u.X, at, cur, depth)
+		return f, t
+	}
+	phi, ok := c.(*ssa.Phi)
+	if !ok || depth == 0 {
+		return kf.atom(c, cur)
+	}
+	// the subject must not change between the phi's block and the test
+	pb := phi.Block()
+	if pb != at && !(pb.Dominates(at)) {
+		return cur, cur
+	}
+	var t, f KindSet
+	for k, e := range phi.Edges {
+		pred := pb.Preds[k]
+		si := 0
+		for j, s := range pred.Succs {
+			if s == pb {
+				si = j
+			}
+		}
+		base := kf.edge(pred, si, depth-1)
+		if kc, isConst := e.(*ssa.Const); isConst && kc.Value != nil {
+			if kc.Value.String() == "true" {
+				t |= base
+			} else {
+				f |= base
+			}
+			continue
+		}
+		et, ef := kf.cond(e, pred, base, depth-1)
+		t |= et
+		f |= ef
+	}
+	return t & cur, f & cur
+}
+
+func (kf *kindFlow) solve() {
+	fn := kf.fn
 	if len(fn.Blocks) == 0 {
-		return kf
+		return
 	}
 	kf.in[fn.Blocks[0]] = AllKinds
 	kf.reached[fn.Blocks[0]] = true
 	work := []*ssa.BasicBlock{fn.Blocks[0]}
-	for len(work) > 0 {
+	steps := 0
+	for len(work) > 0 && steps < 20000 {
+		steps++
 		b := work[0]
 		work = work[1:]
-		cur := kf.in[b]
-		for _, i := range b.Instrs {
-			if kills != nil && kills(i) {
-				cur = AllKinds
-			}
-		}
+		cur := kf.endOf(b)
 		outs := make([]KindSet, len(b.Succs))
 		for i := range outs {
 			outs[i] = cur
 		}
 		if ifi, ok := b.Instrs[len(b.Instrs)-1].(*ssa.If); ok && len(b.Succs) == 2 {
-			outs[0], outs[1] = kf.refine(ifi.Cond, cur)
+			outs[0], outs[1] = kf.cond(ifi.Cond, b, cur, 4)
 		}
 		for si, s := range b.Succs {
 			nw := kf.in[s] | outs[si]
@@ -186,7 +265,6 @@ func KindFlow(fn *ssa.Function, subject func(ssa.Value) bool, kills func(ssa.Ins
 			}
 		}
 	}
-	return kf
 }
 
 // At returns the possible kinds of the subject just before instruction i.
